@@ -293,6 +293,14 @@ def run_program_stream(ctx):
     n = ctx.n(1200, 30000)
     ps = [g.coll_program(ctx.rng.randint(3, 14)) for _ in range(n)]
     progs.run_stream(ctx, 'coll-prog', ps, nontrivial=lambda src, go: src.count('\n') > 8)
+    # keys of dictionary literals: names / numerals / texts taken literally, repeated keys, keys that are other expressions (error 80
+    # when reached), malformed numerals — props/edges.py
+    from props import edges
+    st = {}
+    ks = edges.dictkey_programs(ctx.rng, ctx.n(150, 6000), st)
+    progs.run_stream(ctx, 'dictkey-prog', ks, nontrivial=lambda src, go: True)
+    for k, v in sorted(st.items()):
+        ctx.count('dictkey-prog:gen:' + k, v)
 
 
 def run(ctx):
@@ -363,6 +371,11 @@ def run(ctx):
     compare(ctx, 'list-hist', lists)
     dicts = [gen_dict_history(rng, maxlen, ctx) for _ in range(nhist - nl)]
     compare(ctx, 'dict-hist', dicts)
+    # big containers that grow and then shrink (deterministic shapes, props/bigcoll.py): the quick tier's random histories stop at 30 steps
+    from props import bigcoll
+    bigd, bigl = bigcoll.c12_histories(rng)
+    compare(ctx, 'dict-hist-big', bigd)
+    compare(ctx, 'list-hist-big', bigl)
     ctx.count('excluded_known_crash_region_cases', 0)   # 新增 before the first item is an index error since the fix: nothing excluded
 
     run_program_stream(ctx)
